@@ -1,0 +1,90 @@
+//! Verification hooks: public wrappers around crate-private items of the linear-code
+//! schemes.  Compiled only with `--cfg arkworks_rs_poly_commit_verif`; add-only.
+use super::{
+    data_structures::{LinCodePCCommitment, LinCodePCProof},
+    utils,
+};
+use crate::Error;
+use ark_crypto_primitives::{merkle_tree::Config, merkle_tree::Path, sponge::CryptographicSponge};
+use ark_ff::{FftField, PrimeField};
+#[cfg(not(feature = "std"))]
+use ark_std::vec::Vec;
+
+/// `utils::calculate_t`
+pub fn calculate_t<F: PrimeField>(
+    sec_param: usize,
+    distance: (usize, usize),
+    codeword_len: usize,
+) -> Result<usize, Error> {
+    utils::calculate_t::<F>(sec_param, distance, codeword_len)
+}
+
+/// `utils::get_indices_from_sponge`
+pub fn get_indices_from_sponge<S: CryptographicSponge>(
+    n: usize,
+    t: usize,
+    sponge: &mut S,
+) -> Result<Vec<usize>, Error> {
+    utils::get_indices_from_sponge(n, t, sponge)
+}
+
+/// `utils::get_num_bytes`
+pub fn get_num_bytes(n: usize) -> usize {
+    utils::get_num_bytes(n)
+}
+
+/// `utils::reed_solomon`
+pub fn reed_solomon<F: FftField>(msg: &[F], rho_inv: usize) -> Vec<F> {
+    utils::reed_solomon(msg, rho_inv)
+}
+
+/// (n_rows, n_cols, n_ext_cols) of a commitment
+pub fn commitment_metadata<C: Config>(c: &LinCodePCCommitment<C>) -> (usize, usize, usize) {
+    (c.metadata.n_rows, c.metadata.n_cols, c.metadata.n_ext_cols)
+}
+
+/// Mutable access to the Merkle root of a commitment
+pub fn commitment_root_mut<C: Config>(c: &mut LinCodePCCommitment<C>) -> &mut C::InnerDigest {
+    &mut c.root
+}
+
+/// Overwrite the metadata of a commitment
+pub fn commitment_set_metadata<C: Config>(
+    c: &mut LinCodePCCommitment<C>,
+    n_rows: usize,
+    n_cols: usize,
+    n_ext_cols: usize,
+) {
+    c.metadata.n_rows = n_rows;
+    c.metadata.n_cols = n_cols;
+    c.metadata.n_ext_cols = n_ext_cols;
+}
+
+/// Read access to the parts of a proof: (paths, v, columns, well-formedness vector)
+pub fn proof_parts<F: PrimeField, C: Config>(
+    p: &LinCodePCProof<F, C>,
+) -> (&Vec<Path<C>>, &Vec<F>, &Vec<Vec<F>>, &Option<Vec<F>>) {
+    (
+        &p.opening.paths,
+        &p.opening.v,
+        &p.opening.columns,
+        &p.well_formedness,
+    )
+}
+
+/// Mutable access to the parts of a proof: (paths, v, columns, well-formedness vector)
+pub fn proof_parts_mut<F: PrimeField, C: Config>(
+    p: &mut LinCodePCProof<F, C>,
+) -> (
+    &mut Vec<Path<C>>,
+    &mut Vec<F>,
+    &mut Vec<Vec<F>>,
+    &mut Option<Vec<F>>,
+) {
+    (
+        &mut p.opening.paths,
+        &mut p.opening.v,
+        &mut p.opening.columns,
+        &mut p.well_formedness,
+    )
+}
